@@ -76,6 +76,31 @@ type MTxn struct {
 	Dirty bool
 	Done  bool
 	Log   []MLogEntry
+	// Raw: slices handed out while Txn.RawRead was set. LMDB's contract: such memory is valid
+	// only until the next update operation in the transaction or the end of the transaction;
+	// the model then overwrites it with arbitrary bytes (see invalidate).
+	Raw [][]byte
+}
+
+// hand returns b as the caller receives it: lmdb-go copies unless Txn.RawRead is set; with
+// RawRead the caller gets memory that invalidate() later scribbles over.
+func (t *MTxn) hand(b []byte) []byte {
+	if !t.Txn.RawRead || len(b) == 0 {
+		return b
+	}
+	c := mCopy(b)
+	t.Raw = append(t.Raw, c)
+	return c
+}
+
+// invalidate: an update operation or the end of the transaction makes every RawRead slice
+// handed out so far point at arbitrary bytes (page reuse, copy-on-write, node moves).
+func (t *MTxn) invalidate() {
+	for _, b := range t.Raw {
+		g := NondetU8("rawread.garbage")
+		copy(b, bytes.Repeat([]byte{g}, len(b)))
+	}
+	t.Raw = nil
 }
 
 type MCursor struct {
@@ -170,6 +195,7 @@ func MEnvView(env *lmdb.Env, fn lmdb.TxnOp) error {
 	mTxns = append(mTxns, t)
 	err := fn(t.Txn)
 	t.Done = true
+	t.invalidate()
 	return err
 }
 
@@ -184,6 +210,7 @@ func MEnvUpdate(env *lmdb.Env, fn lmdb.TxnOp) error {
 	mTxns = append(mTxns, t)
 	err := fn(t.Txn)
 	t.Done = true
+	t.invalidate()
 	e.InTxn = false
 	if err != nil {
 		return err // aborted: private copy dropped
@@ -358,7 +385,7 @@ func MTxnGet(txn *lmdb.Txn, dbi lmdb.DBI, key []byte) ([]byte, error) {
 	}
 	i := d.lowerBoundKey(key)
 	if i < len(d.Keys) && mKeyCmp(d, d.Keys[i], key) == 0 {
-		return d.Vals[i], nil
+		return t.hand(d.Vals[i]), nil
 	}
 	return nil, mErr("mdb_get", lmdb.NotFound)
 }
@@ -374,6 +401,7 @@ func (t *MTxn) put(op string, d *MDBI, key, val []byte) error {
 		return mErr(op, lmdb.MapFull)
 	}
 	key, val = mCopy(key), mCopy(val)
+	t.invalidate()
 	t.Log = append(t.Log, MLogEntry{TxnID: t.ID, DBI: d.Name, Key: key, Val: val})
 	// fast path: greater than the last entry
 	if n := len(d.Keys); n > 0 && mEntryCmp(d, d.Keys[n-1], d.Vals[n-1], key, val) < 0 {
@@ -430,6 +458,11 @@ func MTxnDel(txn *lmdb.Txn, dbi lmdb.DBI, key, val []byte) error {
 	if len(key) == 0 {
 		return mErr("mdb_del", lmdb.BadValSize)
 	}
+	key = mCopy(key)
+	if val != nil {
+		val = mCopy(val)
+	}
+	t.invalidate()
 	found := false
 	for i := 0; i < len(d.Keys); {
 		if mKeyCmp(d, d.Keys[i], key) == 0 && (d.Flags&mDupSort == 0 || val == nil || bytes.Equal(d.Vals[i], val)) {
@@ -459,6 +492,7 @@ func MTxnDrop(txn *lmdb.Txn, dbi lmdb.DBI, del bool) error {
 	if t.fault() {
 		return mErr("mdb_drop", lmdb.MapFull)
 	}
+	t.invalidate()
 	if del {
 		for i, o := range t.St.DBIs {
 			if o == d {
@@ -501,7 +535,7 @@ func (c *MCursor) ret(d *MDBI, i int) ([]byte, []byte, error) {
 	c.Has, c.AtEnd = true, false
 	c.Idx = i
 	c.LastKey, c.LastVal = d.Keys[i], d.Vals[i]
-	return d.Keys[i], d.Vals[i], nil
+	return c.Txn.hand(d.Keys[i]), c.Txn.hand(d.Vals[i]), nil
 }
 
 func (c *MCursor) end(op string) ([]byte, []byte, error) {
@@ -585,7 +619,7 @@ func MCursorGet(cur *lmdb.Cursor, setkey, setval []byte, op uint) ([]byte, []byt
 		if !c.Has {
 			return nil, nil, mErr("mdb_cursor_get", lmdb.Errno(22))
 		}
-		return c.LastKey, c.LastVal, nil
+		return c.Txn.hand(c.LastKey), c.Txn.hand(c.LastVal), nil
 	}
 	panic("zzverif: unsupported cursor op")
 }
@@ -597,6 +631,7 @@ func MCursorPut(cur *lmdb.Cursor, key, val []byte, flags uint) error {
 	if d == nil {
 		return mErr("mdb_cursor_put", lmdb.BadDBI)
 	}
+	key, val = mCopy(key), mCopy(val) // the arguments may be RawRead memory that this very update invalidates
 	if flags&lmdb.Append != 0 {
 		if n := len(d.Keys); n > 0 && len(key) > 0 && len(key) <= 511 && mKeyCmp(d, d.Keys[n-1], key) >= 0 {
 			return mErr("mdb_cursor_put", lmdb.KeyExist)
@@ -620,6 +655,7 @@ func MCursorDel(cur *lmdb.Cursor, flags uint) error {
 	if !t.Write {
 		return mErr("mdb_cursor_del", lmdb.Errno(13))
 	}
+	t.invalidate()
 	for i := range d.Keys {
 		if mEntryCmp(d, d.Keys[i], d.Vals[i], c.LastKey, c.LastVal) == 0 {
 			if t.fault() {
